@@ -43,8 +43,6 @@ pub struct FnInfo {
     pub is_pub: bool,
     /// a default method in a `trait` definition
     pub in_trait_def: bool,
-    /// the declared return type mentions an `Atomic*` type
-    pub ret_atomic: bool,
 }
 
 impl FnInfo {
@@ -564,7 +562,6 @@ impl Collector {
             parent: ctx.parent,
             is_pub: ctx.is_pub,
             in_trait_def: ctx.in_trait_def,
-            ret_atomic,
         });
         self.krate.by_qname.entry(qname).or_default().push(idx);
         if ctx.self_ty.is_none() {
